@@ -238,6 +238,9 @@ type Ctl struct {
 	// FaultFn, when set, decides per call (called under Ctl.mu).
 	FaultFn func(store, op, key string, nth int) bool
 
+	// PlainReaders: Get returns readers that implement only Read and Close
+	PlainReaders bool
+
 	Gate *Gate // nil: calls run freely
 
 	// HoldFn, when set, selects calls that block until Release(key) (the
@@ -519,8 +522,18 @@ func (v *View) Get(_ context.Context, key string) (io.ReadCloser, error) {
 		e.Data = o.data
 	}
 	v.emit(e)
+	if v.C != nil && v.C.PlainReaders {
+		return plainReadCloser{r: bytes.NewReader(append([]byte(nil), o.data...))}, nil
+	}
 	return memReader{bytes.NewReader(append([]byte(nil), o.data...))}, nil
 }
+
+// plainReadCloser is a reader with nothing but Read and Close (no io.WriterTo, io.Seeker, Len):
+// consumers have to copy through their own buffers.
+type plainReadCloser struct{ r io.Reader }
+
+func (p plainReadCloser) Read(b []byte) (int, error) { return p.r.Read(b) }
+func (plainReadCloser) Close() error                 { return nil }
 
 type atReader struct {
 	v   *View
